@@ -423,6 +423,74 @@ func c20ExtractDelivery(e *ext) {
 	}
 	fmt.Fprintf(&e.out, "def cacheChangedExpr : String := %s\n", leanStr(changed))
 	fmt.Fprintf(&e.out, "def availableSetUnconditionally : Bool := %v\n", avail)
+
+	// ---- lock / critical-section structure of the cache: the top-level statements of the three accessors, abstracted
+	//   syncNodeSLOSpecIfChanged: Lock; defer Unlock; return syncConfig(..)   (the whole read-merge-write of the cache is one critical section)
+	//   GetCfgCopy:               RLock; defer RUnlock; return <cache>.DeepCopy()   (readers never alias the cache)
+	lockShape := func(method string) []string {
+		fd := e.funcDecl("pkg/slo-controller/nodeslo", "SLOCfgHandlerForConfigMapEvent", method)
+		if fd == nil || fd.Body == nil {
+			e.fail("%s not found", method)
+			return []string{"missing"}
+		}
+		var shape []string
+		for _, st := range fd.Body.List {
+			switch v := st.(type) {
+			case *ast.ExprStmt:
+				if fn, c := callName(v.X); c != nil && strings.Contains(fn, ".lock.") {
+					shape = append(shape, fn[strings.LastIndex(fn, ".")+1:])
+				} else {
+					shape = append(shape, "stmt")
+				}
+			case *ast.DeferStmt:
+				fn := types.ExprString(v.Call.Fun)
+				if strings.Contains(fn, ".lock.") {
+					shape = append(shape, "defer "+fn[strings.LastIndex(fn, ".")+1:])
+				} else {
+					shape = append(shape, "defer other")
+				}
+			case *ast.ReturnStmt:
+				r := "return other"
+				if len(v.Results) == 1 {
+					if fn, c := callName(v.Results[0]); c != nil {
+						switch {
+						case strings.HasSuffix(fn, ".syncConfig"):
+							r = "return syncConfig"
+						case strings.HasSuffix(fn, ".cfgCache.sloCfg.DeepCopy"):
+							r = "return cache.DeepCopy"
+						}
+					}
+				}
+				shape = append(shape, r)
+			default:
+				shape = append(shape, "stmt")
+			}
+		}
+		return shape
+	}
+	fmt.Fprintf(&e.out, "def syncLockShape : List String := [%s]\n", c20QuoteAll(lockShape("syncNodeSLOSpecIfChanged")))
+	fmt.Fprintf(&e.out, "def cfgCopyLockShape : List String := [%s]\n", c20QuoteAll(lockShape("GetCfgCopy")))
+
+	// ---- triggerAllNodeEnqueue: one q.Add per item of the listed NodeList, no filter in the loop
+	enq := "missing"
+	if fd := e.funcDecl("pkg/slo-controller/nodeslo", "SLOCfgHandlerForConfigMapEvent", "triggerAllNodeEnqueue"); fd != nil && fd.Body != nil {
+		enq = "no-loop"
+		for _, st := range fd.Body.List {
+			if rs, ok := st.(*ast.RangeStmt); ok {
+				enq = "loop-other"
+				if strings.HasSuffix(types.ExprString(rs.X), ".Items") && len(rs.Body.List) == 1 {
+					if es, ok := rs.Body.List[0].(*ast.ExprStmt); ok {
+						if fn, c := callName(es.X); c != nil && strings.HasSuffix(fn, ".Add") {
+							enq = "range Items: q.Add"
+						}
+					}
+				}
+			}
+		}
+	} else {
+		e.fail("triggerAllNodeEnqueue not found")
+	}
+	fmt.Fprintf(&e.out, "def enqueueAllShape : String := %s\n", leanStr(enq))
 }
 
 func c20QuoteAll(ss []string) string {
